@@ -42,6 +42,11 @@ def feedChunk (s : Str × St) (chunk : Str) : Str × St := chunk.foldl feedChar 
 def parseStream (chunks : List Str) : List (Str × Str) :=
   (legacyDispatch (chunks.foldl feedChunk ([], clean [])).2).out
 
+/-- the stream breaks off with an exception after these chunks: what was dispatched so far
+    (no end-of-input dispatch; the caller then routes one error with the request's id) -/
+def parseStreamAborted (chunks : List Str) : List (Str × Str) :=
+  (chunks.foldl feedChunk ([], clean [])).2.out
+
 /-- a rendering the legacy grammar understands: explicit event type, one space after each colon -/
 structure PlainEvent where
   name : Str
